@@ -31,8 +31,9 @@ type c18Case struct {
 }
 
 var c18Cfg = kit.WorldCfg{
-	Stores: []kit.StoreCfg{{Name: "things", UniqueName: true, RolesIndex: true}, {Name: "targets", UniqueName: true}},
-	Links:  []kit.LinkCfg{{A: "things", FieldA: "tlinks", B: "targets", FieldB: "plinks"}},
+	BasePath: []string{"root", "zone"}, // a nested base path
+	Stores:   []kit.StoreCfg{{Name: "things", UniqueName: true, RolesIndex: true}, {Name: "targets", UniqueName: true}},
+	Links:    []kit.LinkCfg{{A: "things", FieldA: "tlinks", B: "targets", FieldB: "plinks"}},
 }
 
 // every template renders a filter for version v and computes the reference answer for (version, #things, #targets)
@@ -120,6 +121,37 @@ var c18Templates = map[string]c18Template{
 	"map-nested-c": {
 		text:   func(v, n, t int) string { return `meta.c.deeper.z = "zed" and meta.a.x != null` },
 		expect: func(v, n, t int) []string { return c18All(n) },
+	},
+	// function-backed symbols (external_symbol.go) are shared by all concurrent queries
+	"func-bool-true": {
+		text: func(v, n, t int) string { return `oddId = true` },
+		expect: func(v, n, t int) []string {
+			var out []string
+			for i := 1; i < n; i += 2 {
+				out = append(out, fmt.Sprintf("e%d", i))
+			}
+			return out
+		},
+	},
+	"func-bool-false": {
+		text: func(v, n, t int) string { return `oddId = false and idCopy != "nobody"` },
+		expect: func(v, n, t int) []string {
+			var out []string
+			for i := 0; i < n; i += 2 {
+				out = append(out, fmt.Sprintf("e%d", i))
+			}
+			return out
+		},
+	},
+	"func-string": {
+		text: func(v, n, t int) string { return `idCopy = "e0" or idCopy = "e3"` },
+		expect: func(v, n, t int) []string {
+			out := []string{"e0"}
+			if n > 3 {
+				out = append(out, "e3")
+			}
+			return out
+		},
 	},
 	"sub-query": {
 		text:   func(v, n, t int) string { return `not isEmpty(from tlinks where name contains "target")` },
@@ -229,7 +261,7 @@ func readVersion(w *kit.World, c c18Case) (int, error) {
 			if err != nil {
 				return fmt.Errorf("ast.Parse(%s): %v", text, err)
 			}
-			if err := boltz.ValidateSymbolsArePublic(q, st); err != nil && !strings.Contains(text, "tlinks") && !strings.Contains(text, "roles") {
+			if err := boltz.ValidateSymbolsArePublic(q, st); err != nil && !strings.Contains(text, "tlinks") && !strings.Contains(text, "roles") && !strings.Contains(text, "oddId") && !strings.Contains(text, "idCopy") {
 				return fmt.Errorf("ValidateSymbolsArePublic(%s): %v", text, err)
 			}
 			ids, _, err := st.QueryIdsC(tx, q)
@@ -294,8 +326,17 @@ func runC18(c c18Case) kit.Result {
 		return res
 	}
 	defer w.Close()
-	w.Stores["things"].AddMapSymbol("meta", ast.NodeTypeAnyType, "meta", "edge", "deep")
+	// the prefix is assembled the way configuration code does it: a slice with spare capacity
+	metaPrefix := append(make([]string, 0, 8), "edge", "deep")
+	w.Stores["things"].AddMapSymbol("meta", ast.NodeTypeAnyType, "meta", metaPrefix...)
 	w.Stores["things"].MakeSymbolPublic("meta")
+	w.Stores["things"].AddEntitySymbol(boltz.NewBoolFuncSymbol(w.Stores["things"], "oddId", func(id string) bool {
+		return len(id) > 0 && (id[len(id)-1]-'0')%2 == 1
+	}))
+	w.Stores["things"].AddEntitySymbol(boltz.NewStringFuncSymbol(w.Stores["things"], "idCopy", func(id string) *string {
+		s := id
+		return &s
+	}))
 	err = w.Z.Db.Update(kit.NewCtx(), func(ctx boltz.MutateContext) error {
 		for i := 0; i < c.Targets; i++ {
 			if err := w.Stores["targets"].Create(ctx, (&kit.EntSpec{Name: fmt.Sprintf("target-%d", i)}).ToEnt("targets", fmt.Sprintf("t%d", i))); err != nil {
@@ -311,7 +352,7 @@ func runC18(c c18Case) kit.Result {
 		// version-independent map data under things/<id>/edge/deep/meta/...
 		err = w.Z.Db.Update(kit.NewCtx(), func(ctx boltz.MutateContext) error {
 			for i := 0; i < c.Things; i++ {
-				b := boltz.GetOrCreatePath(ctx.Tx(), "root", "things", fmt.Sprintf("e%d", i), "edge", "deep", "meta")
+				b := boltz.GetOrCreatePath(ctx.Tx(), c18Cfg.PathOf("things", fmt.Sprintf("e%d", i), "edge", "deep", "meta")...)
 				b.GetOrCreatePath("a").SetInt64("x", int64(i), nil)
 				b.GetOrCreatePath("b").SetInt64("y", int64(100+i), nil)
 				b.GetOrCreatePath("c", "deeper").SetString("z", "zed", nil)
